@@ -123,9 +123,17 @@ def replay_flows(unit):
         if isinstance(o, Container):
             return amount(o)
         return numpy.array([[amount(w) for w in row] for row in o.wells])
+    fails = []
+    # the same baked recipe is first asked in ANOTHER unit (answers must not depend on what was asked before)
+    other = 'mg' if unit != 'mg' else 'mmol'
+    for obj in (stock, waste, p):
+        try:
+            r.get_amount_remaining(obj, 'all', other)
+            r.get_container_flows(obj, 'all', other)
+        except Exception as e:
+            fails.append(f"query in {other}: {e!r}")
     prec = pp.config.precisions.get(unit, pp.config.precisions['default'])
     tol = 0.6 * 10 ** (-prec)
-    fails = []
     for tf, (lo, hi) in stages.items():
         for name in ('stock', 'waste', 'P'):
             used = [i for i in range(lo, hi) if name in roles[i][:2]]
